@@ -37,6 +37,16 @@ CLAIMED["C16"] = ("Bounded symbolic model checking of FlattenProperties / Flatte
          "Collections in single-item positions are outside the property ('non-collection object'). For duplicate members both element-wise and first-mention-kept results are accepted.",
          "7 C16")
 
+CLAIMED["C11"] = ("Bounded symbolic model checking of Clean() of all 13 types that offer it and of CleanRecipients / ItemCollection.Clean: bto/bcc populated on the value, on an object embedded by pointer at each of the nine walked properties (for Activity also object, actor, target), directly or inside a list, and on an object embedded one level deeper (D=2), with symbolic ids; asserted after Clean(): the lists are empty along the walk, the bytes of the real MarshalJSON (interpreted) contain no bto/bcc member, every other field of the value and of the embedded objects equals its snapshot (generated field-by-field comparator); objects at unwalked positions (inReplyTo, location, url) are left exactly as they were.",
+         "Depth 2 along the walk; the serialisation check is a search for the quoted member names in the produced bytes.",
+         "7 C11")
+CLAIMED["C18"] = ("Bounded symbolic model checking of CopyItemProperties and the per-type copy functions for Object, Actor and the four collection types: for every field of the current struct definition (generated) and each value shape, presence on `to` and `from` chosen independently (4 cases) with distinct symbolic values, plus everything populated on both sides; asserted field by field: id and type are from's, every field is its old value or from's, a field set in `to` and unset in `from` is kept, each listed merged property set in `from` has from's value, `from` equals its snapshot. Refusals (nil side, other id, other type, unsupported type) return an error and leave `to` equal to its snapshot; equivalent-but-different ids are accepted.",
+         "One property at a time, or all at once; arbitrary subsets are outside the claim. Typed-nil sides are C20's subject.",
+         "7 C18")
+CLAIMED["C20"] = ("Exhaustive finite matrix explored by the symbolic executor: the untyped nil and a nil pointer of every vocabulary struct type found in the current source (15 kinds) x 64 helper entries (every exported function/method with an Item/LinkOrIRI parameter found in the current source is either exercised or listed as constructor/indirect - a coverage harness fails if a new one appears) at top level, as a member of a list handed to the list-aware helpers, and as a property of an otherwise valid activity/object. Asserted: no panic (Go run-time panics are detected by the interpreter with Go's rules, including the synthesised pointer-receiver wrappers), IsNil true, NotEmpty false, equal to nil and unequal to non-nil, callbacks receive nil or are not invoked, neutral results; any view larger than its allocation is an engine event.",
+         "The package-level encoders MarshalJSON(Item)/GobEncode(Item) go through jsonld/gob (reflection) and are exercised through the per-type MarshalJSON only.",
+         "7 C20")
+
 NOT_YET = {}
 
 def main():
